@@ -1606,7 +1606,14 @@ where
         mut packet: v5_0::GenericPublish<PacketIdType>,
     ) -> Vec<GenericEvent<PacketIdType>> {
         if !self.validate_maximum_packet_size_send(packet.size()) {
-            return vec![GenericEvent::NotifyError(MqttError::PacketTooLarge)];
+            let mut events = vec![GenericEvent::NotifyError(MqttError::PacketTooLarge)];
+            if let Some(packet_id) = packet.packet_id() {
+                if self.pid_man.is_used_id(packet_id) {
+                    self.pid_man.release_id(packet_id);
+                    events.push(GenericEvent::NotifyPacketIdReleased(packet_id));
+                }
+            }
+            return events;
         }
 
         let mut events = Vec::new();
@@ -2013,7 +2020,13 @@ where
         packet: v5_0::GenericSubscribe<PacketIdType>,
     ) -> Vec<GenericEvent<PacketIdType>> {
         if !self.validate_maximum_packet_size_send(packet.size()) {
-            return vec![GenericEvent::NotifyError(MqttError::PacketTooLarge)];
+            let mut events = vec![GenericEvent::NotifyError(MqttError::PacketTooLarge)];
+            let packet_id = packet.packet_id();
+            if self.pid_man.is_used_id(packet_id) {
+                self.pid_man.release_id(packet_id);
+                events.push(GenericEvent::NotifyPacketIdReleased(packet_id));
+            }
+            return events;
         }
 
         let mut events = Vec::new();
@@ -2119,7 +2132,13 @@ where
         packet: v5_0::GenericUnsubscribe<PacketIdType>,
     ) -> Vec<GenericEvent<PacketIdType>> {
         if !self.validate_maximum_packet_size_send(packet.size()) {
-            return vec![GenericEvent::NotifyError(MqttError::PacketTooLarge)];
+            let mut events = vec![GenericEvent::NotifyError(MqttError::PacketTooLarge)];
+            let packet_id = packet.packet_id();
+            if self.pid_man.is_used_id(packet_id) {
+                self.pid_man.release_id(packet_id);
+                events.push(GenericEvent::NotifyPacketIdReleased(packet_id));
+            }
+            return events;
         }
 
         let mut events = Vec::new();
